@@ -105,6 +105,7 @@ type puppet struct {
 	grantPrevote atomic.Bool
 	grantVote    atomic.Bool
 	cfgBytes []byte
+	snapshots bool
 }
 
 func (p *puppet) log(format string, args ...interface{}) {
@@ -117,7 +118,7 @@ func newPuppet(x *Ctx, dir string, seed int64, fo shim.FSMOpts) (*puppet, error)
 	m := mon.New()
 	m.Keep = true
 	c := cluster.New(m, dir, seed, cluster.Options{ET: 3 * time.Millisecond, HB: 2 * time.Millisecond, Lease: time.Millisecond, FSM: fo, SampleEvery: time.Hour})
-	p := &puppet{x: x, M: m, C: c, eps: map[string]*simnet.Endpoint{}}
+	p := &puppet{x: x, M: m, C: c, eps: map[string]*simnet.Endpoint{}, snapshots: fo.SnapThreshold > 0}
 	m.Emit(mon.Event{Kind: mon.KPuppet})
 	cfg := &mon.Cfg{Index: 1, Members: map[string]bool{"p": true, "A": true, "B": true}}
 	m.Emit(mon.Event{Kind: mon.KBoot, Cfg: cfg})
@@ -329,9 +330,16 @@ func puppetAE(p *puppet, r *rand.Rand) {
 		}
 		last.t, last.prev, last.n, last.c = t, prev, n, c
 		p.ae(t, term, prev, n, c)
+		if p.snapshots {
+			time.Sleep(2 * time.Millisecond) // let the node apply and compact
+		}
 		if r.Intn(6) == 0 {
 			p.crashRestart()
 		}
+	}
+	// what the requests left on disk is what a restart finds
+	if r.Intn(2) == 0 {
+		p.crashRestart()
 	}
 	p.x.Cover("ae-cases")
 }
@@ -690,7 +698,10 @@ func (p *puppet) probes(r *rand.Rand) {
 }
 
 func init() {
-	Registry["puppet.ae"] = func(x *Ctx) { runPuppetCases(x, x.P.Int("cases", 40), shim.FSMOpts{Seed: x.Seed}, puppetAE) }
+	Registry["puppet.ae"] = func(x *Ctx) {
+		// snapthr > 0: the node takes snapshots of its own (compaction that retains the entries after the label)
+		runPuppetCases(x, x.P.Int("cases", 40), shim.FSMOpts{Seed: x.Seed, SnapThreshold: x.P.Int("snapthr", 0)}, puppetAE)
+	}
 	Registry["puppet.rv"] = func(x *Ctx) { runPuppetCases(x, x.P.Int("cases", 30), shim.FSMOpts{Seed: x.Seed}, puppetRV) }
 	Registry["puppet.is"] = func(x *Ctx) { runPuppetCases(x, x.P.Int("cases", 30), shim.FSMOpts{Seed: x.Seed}, puppetIS) }
 }
